@@ -61,7 +61,11 @@ CLAIMED = {
     'C13': dict(
         text="C13_ops/C13_bytes/C13_length/C13_roundtrip: for every width, sign, byte order and integer a fixint field serialises as exactly size_of raw pushes in the chosen order (never a varint) and decodes back; the extracted model is compared with the real crate on every generated value and the direct oracle (bytes == to_{le,be}_bytes, round trip) runs on the implementation.",
         note=NOTE + "serde's [u8;N] impl (array as tuple) and to_le_bytes/from_le_bytes",
-        design="6 (C13)"),    'C15': dict(
+        design="6 (C13)"),    'C14': dict(
+        text="C14_conforms_typed: for EVERY schema tree and EVERY tree of named data-model items, if the items conform to the schema (kinds, field names and order, variant names and indices, arity, element types; the Schema kind = a serialised schema tree) then the erased value has exactly the shape the schema prescribes; C14_schema_reader_exact: hence a reader that knows nothing but the schema parses the value's encoding followed by any bytes, consuming exactly the encoding (through the round-trip theorem of C01). Partial on the 'programs' axis: that the items a given Rust type emits conform to that type's SCHEMA constant depends on rustc, serde's impls and two proc-macros and is not a theorem; it is decided per (type, value) by running the extracted `conforms` and `schema_skip` and an independent Rust conformance checker on the serde call trees captured by a recording serializer for a corpus covering every built-in Schema impl (incl. heapless, uuid, chrono, Key, the schema types themselves) and the workspace derive (all four struct forms, enums mixing the four variant forms with 1..129 variants, generics, nesting).",
+        note=NOTE + "rustc + serde impls + serde_derive + the Schema derive (their joint output is captured at run time, not modelled); nalgebra integration not built in the harness",
+        design="7 (C14)"),
+    'C15': dict(
         text="C15_decl_agree: the borrowed (mod.rs) and owned (owned.rs) enum/struct declarations, as the translator reads them on every run, agree variant for variant and field for field; C15_conversion_faithful: the From<&DataModelType> family, interpreted from its translated arm tables, is the identity on the common tree view (every kind, name, order, nesting preserved) for every schema tree; C15_same_bytes: both forms serialise to identical bytes; C15_roundtrip: those bytes followed by anything decode (owned enum unfolded deep enough) to the conversion, consuming exactly them; C15_read_back: the decoded value determines the tree. Correspondence + direct oracles: random trees over all 26+4 kinds with random names, leaked to 'static; bytes vs an independent encoder; conversion vs directly built owned tree; truncated/mutated bytes vs the model's decoder.",
         note=NOTE + "serde derive(Serialize/Deserialize) on the four schema types (modelled from the declarations: variant index = declaration order, fields in declared order); Box/slice/str plumbing of the conversions",
         design="7 (C15)"),
